@@ -200,6 +200,13 @@ def designed():
             operand = ("macro", "w", args)
             body_op = ("op", "push2", operand) if opk == "op" else ("push", operand)
             out.append([ident, w, ("defi", "both", ["a", "b"], [L, J, body_op]), ("macro", "both", [("num", 3), ("num", 4)]), ("macro", "both", [("lbl", "o2"), ("num", 1)])] + tail)
+    # wrong number of arguments (too many, too few, for a macro without parameters, in a nested invocation): the
+    # invocation has no expansion, so it must fail -- the same way its (non-existent) expansion "fails"
+    out.append([inner, ("macro", "inner", [("num", 1), ("num", 2)])] + tail)
+    out.append([inner, ("macro", "inner", [])] + tail)
+    out.append([("defi", "here", [], [L, J, ("op", "push1", ("lbl", "top"))]), ("macro", "here", [("num", 7)])] + tail)
+    out.append([inner, ("defi", "outer", ["a", "b"], [("macro", "inner", [("var", "a"), ("var", "b")])]), ("macro", "outer", [("num", 1), ("num", 2)])] + tail)
+    out.append([inner, ("defi", "outer", ["a", "b"], [("macro", "inner", [])]), ("macro", "outer", [("num", 1), ("num", 2)])] + tail)
     # user labels spelled like the names a macro-local label could be given (macro_label_suffix with small or
     # predictable suffixes): they are ordinary labels, never captured by / clashing with an expansion
     body = [L, J, ("op", "push1", ("lbl", "top"))]
